@@ -213,6 +213,24 @@ int main(int argc, char** argv) {
     tolerance_run(p, m, 1e-10, 1e-9, 1e-200, 1e-5);   // relative control only: a state of size 1e-10 must still be right to ~1e-9 relative
     tolerance_run(p, m, 1e8, 1e-200, 1e-6, 1e-11);    // absolute control only: a state of size 1e8 must be right to ~1e-6 absolute (1e-3 accepted)
   }
+  // the same problem in other time units (rates x S, times / S): many short Evolve calls whose |dt| is far below 1 (and below
+  // machine epsilon) while rate x dt is not small; the solution depends on S*t only
+  for (double S : {1e16, 4e17, 1e-12}) for (int mi : {1, 7}) for (int d : {2, 3}) {
+    if ((size_t)mi >= modes.size()) continue;
+    if ((caseno++ % ar.nshards) != ar.shard) continue;
+    const Mode& m = modes[mi];
+    Problem p; p.nx = 2; p.d = d; p.nrho = 1; p.nsc = 1; for (int b = 0; b < 5; b++) p.sw[b] = (b != 2 && b != 4); p.family = 0; p.kappa = 0.3; p.kappa2 = 0.2; p.tscale = S;
+    Probe s(p, 0.5 / S); s.Set_GSL_step(m.type); s.Set_AdaptiveStep(m.adaptive);
+    if (m.adaptive) { s.Set_rel_error(1e-10); s.Set_abs_error(1e-10); s.Set_h(1e-4 / S); } else { s.Set_NumSteps(100); s.Set_rel_error(1e-2); s.Set_abs_error(1e-2); }
+    std::vector<double> y0 = probe_state(p, 0); s.set_flat(y0);
+    count("evaluations"); count("rescaled_time_runs"); { uint64_t h = ref::fnv(&S, 8, d * 10 + mi); distinct(h); }
+    std::string ctx = "{\"layer\":\"time-units\",\"problem\":" + pjson(p) + ",\"time_scale\":" + jnum(S) + ",\"stepper\":" + jstr(m.name) + ",\"adaptive\":" + (m.adaptive ? "true" : "false") + "}";
+    try { for (int k = 0; k < 20; k++) s.Evolve(0.05 / S); }
+    catch (const std::exception& ex) { violation(std::string("Evolve:throws:") + m.name + ":rescaled-time", "{\"case\":" + ctx + ",\"what\":" + jstr(ex.what()) + "}"); continue; }
+    std::vector<double> got = s.get_flat(), want = p.exact(y0, 0.5 / S, 1.5 / S);
+    double scale = std::max(maxabs(y0), maxabs(want)), e = maxdiff(got, want), tol = 20 * std::max(m.tol, 1e-6) * scale;
+    if (!(e <= tol) || !(std::fabs(s.Get_t() * S - 1.5) <= 1e-9)) violation("Evolve:solution-mismatch:rescaled-time-units", "{\"case\":" + ctx + ",\"err\":" + jnum(e) + ",\"tol\":" + jnum(tol) + ",\"t_times_S\":" + jnum(s.Get_t() * S) + "}");
+  }
   // fixed stepping that is too coarse for the requested tolerance (and some that is not): every fixed mode
   for (auto& m : modes) for (int d : {2, 3}) for (int sw : {8, 1, 31, 9}) for (int nsteps : {3, 10, 60}) for (double tolreq : {1e-9, 1e-5, 1e-2}) {
     if (m.adaptive) continue;
